@@ -19,6 +19,7 @@ type Program struct {
 	SSAPkgs  []*ssa.Package
 	Funcs    map[string]*ssa.Function // by String()
 	CS       *ContractSet
+	arithMemo map[*ssa.Function]int // mayArith: 1 no, 2 yes, 3 in progress
 	typeTags map[string]int
 	tagTypes map[int]types.Type
 	named    []types.Type // all named concrete types (T and *T) in loaded cadence packages
